@@ -4,7 +4,7 @@ from ..net import *
 
 ID = "C05"
 LEVEL = "exploration"
-RULE = ("skeletons pumpfeed (R-pump-J1-p2-J2-p3-T), twosrc (R-p1-J1-p2-J2-p3-T), valve (p2 = TCV) and deadend (twosrc + dead-end J3 that one control cuts off while another watches its pressure) with a small tank (diameter "
+RULE = ("skeletons pumpfeed (R-pump-J1-p2-J2-p3-T), twosrc (R-p1-J1-p2-J2-p3-T), vctank (twosrc with a non-prismatic volume-curve tank; single controls), valve (p2 = TCV) and deadend (twosrc + dead-end J3 that one control cuts off while another watches its pressure) with a small tank (diameter "
         "5 m) x demand patterns {fill, drain, fill-then-drain, saw-tooth} x ALL single simple controls and the sets of two (quick: "
         "hysteresis pairs and same-target pairs; thorough: ALL pairs, plus triples on a reduced alphabet) from: LINK x OPEN|CLOSED IF "
         "TANK T ABOVE|BELOW L, L in {just inside min, low, mid, high, just inside max}; IF JUNCTION J2 ABOVE|BELOW p; TCV SETTING s "
@@ -36,6 +36,11 @@ def skeleton(name, pat, hyd, cv=False):
         # a dead-end junction J3 that another control can cut off: its reported pressure is then 0
         s = spec([R("R", 38.0), J("J1", 0.0, [[0.0, None, None]]), J("J2", 5.0, [[0.02, "D", None]]), tank, J("J3", 2.0, [[0.004, None, None]])],
                  [P("src", "R", "J1"), P("p2", "J1", "J2", cv=cv), P("p3", "J2", "T"), P("p4", "J2", "J3", L=200.0, D=0.2)])
+    elif name == "vctank":
+        # twosrc with a tank whose volume curve is not prismatic (cross-sections 20, 60, 47 m2), elevation 30 m
+        tank = dict(tank, vcurve=[[0.0, 0.0], [2.0, 40.0], [4.0, 160.0], [7.0, 300.0]])
+        s = spec([R("R", 38.0), J("J1", 0.0, [[0.0, None, None]]), J("J2", 5.0, [[0.02, "D", None]]), tank],
+                 [P("src", "R", "J1"), P("p2", "J1", "J2", cv=cv), P("p3", "J2", "T")])
     else:
         s = spec([R("R", 38.0), J("J1", 0.0, [[0.0, None, None]]), J("J2", 5.0, [[0.02, "D", None]]), tank],
                  [P("src", "R", "J1"), V("p2", "J1", "J2", "TCV", 2.0), P("p3", "J2", "T")])
@@ -70,7 +75,7 @@ def chatter(a, b):
 
 def cases(tier):
     out = []
-    for skel, pat in itertools.product(("pumpfeed", "twosrc", "valve", "deadend"), DEM):
+    for skel, pat in itertools.product(("pumpfeed", "twosrc", "valve", "deadend", "vctank"), DEM):
         if skel == "deadend":
             # isolation x pressure control: one control cuts the dead end off, another one watches its pressure
             cut = [{"kind": "level", "node": "T", "rel": rel, "thr": L, "link": "p4", "value": "CLOSED"} for rel, L in ((">", 3.5), (">", 4.5), ("<", 2.5))]
@@ -87,7 +92,9 @@ def cases(tier):
         A = control_alphabet(skel)
         sets = [[a] for a in A]
         pairs = []
-        for a, b in itertools.combinations(A, 2):
+        for a, b in (itertools.combinations(A, 2) if skel != "vctank" or tier == "thorough" else ()):
+            if skel == "vctank" and not (a["link"] == b["link"] and a["kind"] == b["kind"] == "level" and a["value"] != b["value"] and a["rel"] != b["rel"]):
+                continue            # volume-curve tank: singles, and (thorough) hysteresis pairs only
             same_t = a["link"] == b["link"]
             hyst = same_t and a["kind"] == b["kind"] == "level" and a["value"] != b["value"] and a["rel"] != b["rel"]
             if tier == "quick":
@@ -170,7 +177,12 @@ def run_case(s):
         return {"viol": [], "nontrivial": False, "outcome": "not-converged", "counts": {"not_converged": 1}}
     viol, counts = [], {"state_checks": 0, "exempt_cv_pump": 0, "exempt_tank_limit": 0, "exempt_conflict": 0, "overshoot_checks": 0}
     ctr = s["controls"]
-    area = math.pi / 4.0 * node(s, "T")["diam"] ** 2
+    tk = node(s, "T")
+    if tk.get("vcurve"):
+        # non-prismatic tank: the smallest cross-section gives the largest (most lenient) level change per volume
+        area = min((v1 - v0) / (l1 - l0) for (l0, v0), (l1, v1) in zip(tk["vcurve"], tk["vcurve"][1:]))
+    else:
+        area = math.pi / 4.0 * tk["diam"] ** 2
     changed = False
     for c in ctr:
         tv = [robust_true(c, cond_value(r, c, i)) for i in range(len(r.times))]
